@@ -173,7 +173,7 @@ func stressOnce(t *testing.T, id int, rnd *rand.Rand) StressRec {
 					continue
 				}
 				to := int(tl.Height()) + 1 + r.Intn(4)
-				if to >= int(hd.Height()) || to > n/4 {
+				if to > int(hd.Height()) || to > n/4 {
 					continue
 				}
 				if err := st.DeleteRange(bg, tl.Height(), uint64(to)); err != nil {
